@@ -29,12 +29,12 @@ def main(argv):
     import sm_common as S
     tok, binary = S.prepare(c)
     if binary is not None:
-        clauses = ["c07_sm_valset"]
+        clauses = ["c07_sm_valset", "c07_sm_considered_match"]
 
         def classify(name, evs, fl):
             # the known defect of the catch-up branch (C08's finding, witness w8): after a round entrance answered with a committed
             # header the validator-set bookkeeping stays empty - the model predicts the monitor's failure on such a history
-            if name == "c07_sm_valset" and any(e[0] == 4 for e in evs) and fl.get("model:" + name) is False:
+            if S.catchup_valsets_empty(name, evs, fl):
                 return "catchup-leaves-validator-sets-empty"
             return name
         n, steps = (24, 40) if c.tier == "quick" else (300, 60)
